@@ -296,7 +296,8 @@ def run(ctx):
                        "overwritten inputs; long runs beyond the 128-slot input ring with delays up to the theorem's bound; one noisy frame F "
                        "(checksum changes on every save of F) for every valid (window, check distance) pair. "
                        "non-trivial = distinct (players, window, dist, delay, noisy frame, family) of accepted sessions")
-    ctx.cov["exhaustive"] = "bounded: the configuration grid is complete for the stated ranges; input sequences and (quick tier) noisy frames are sampled; the Coq theorems cover all values"
+    ctx.cov["exhaustive"] = False
+    ctx.cov["exhaustive_note"] = "bounded: the configuration grid is complete for the stated ranges; input sequences and (quick tier) noisy frames are sampled; the Coq theorems cover all values"
     ctx.assumptions += [
         "the user executes every returned request list in order and saves with the checksum of its game (protocol stated in coq/SyncTest.v)",
         "the game state is modelled as the list of input vectors played on the current timeline; a deterministic game's checksum is a function of it",
